@@ -161,6 +161,28 @@ def bosonic (j : Json) : R Json := do
   | "reducedBosonic" => pure <| out (reducedBosonic n modes)
   | "backendState" => pure <| out (bosonicBackendState n modes)
   | "labels" => pure <| natList (bosonicBackendLabels modes)
+  | "fidelityArgs" | "purityArgs" | "wignerArgs" => do
+    -- components over all `n` modes (fidelity, purity) resp. the reduced one-mode components (wigner)
+    let comps ← getArr j "comps"
+    let cs ← comps.mapM fun cj => do
+      let w ← asRat (← cj.getObjVal? "w")
+      let mu ← getRatList cj "mu"
+      let cov ← getRatMat cj "cov"
+      pure (w, ({ mu := fun a => mu.getD a 0, cov := fun a b => (cov.getD a #[]).getD b 0 } : GData Rat))
+    let size := 2 * n
+    let jcomp (p : Rat × GData Rat) : Json := Json.mkObj ([("w", jrat p.1)] ++ jG size p.2)
+    if kind == "fidelityArgs" then
+      let are ← getRatList j "are"
+      let aim ← getRatList j "aim"
+      let sq ← asRat (← j.getObjVal? "sq")
+      let h2 ← asRat (← j.getObjVal? "h2")
+      pure <| jarr ((bosonicFidelityArgs sq h2 (fun a => are.getD a 0) (fun a => aim.getD a 0) cs).map jcomp)
+    else if kind == "purityArgs" then
+      pure <| jarr ((bosonicPurityArgs cs).map jcomp)
+    else
+      let x ← asRat (← j.getObjVal? "x")
+      let p ← asRat (← j.getObjVal? "p")
+      pure <| jarr ((bosonicWignerArgs x p cs).map fun t => jarr [jrat t.1, jrat t.2.1, jrat t.2.2])
   | "meanPhoton" | "quad" | "marginal" => do
     let comps ← getArr j "comps"
     let cs ← comps.mapM fun cj => do
